@@ -166,6 +166,7 @@ def run_case(ctx, gd, rng, i, core=None, cards=None):
 
 
 def run_shard(ctx):
+    gg.ALLOW_ODD = True  # node names that are not Python identifiers are node names like any other
     gg.ALLOW_PREFIXED = False  # a name T_x is a selection node for the transport algorithms
     mon_ctf.install_blocks()
     mon_ctf.CONFIG.update(K={"quick": 2, "thorough": 3}[ctx.tier])
